@@ -1,7 +1,7 @@
 (* C11 - partial-channel inference ignores withheld channels; channel joins
    round-trip.  Statements only. *)
 From Coq Require Import List Bool Arith ZArith Reals.
-From ART Require Import Num NumR Vec Search Kernel Fusion Fusion_proofs.
+From ART Require Import Num NumR Vec Search Kernel Fusion Fusion_proofs Fusion_prep.
 Import ListNotations.
 Open Scope nat_scope.
 
@@ -25,7 +25,17 @@ Theorem C11_split_join :
             data (map snd (filter (fun kd => negb (existsb (Nat.eqb (fst kd)) skip)) (combine (seq k (length ds)) ds))) ->
     split_row k ds skip (join_row k ds skip data) = data.
 Proof. exact @split_join. Qed.
+(* prepare_data / restore_data with skipped channels: each supplied channel is prepared and restored by its OWN
+   module (the j-th block belongs to the j-th supplied channel), so they are mutually inverse on the supplied channels
+   whenever every module's own prepare / restore are *)
+Theorem C11_restore_prepare_with_skips :
+  forall (N : Num) (prep rest : nat -> list N -> list N) (ds skip : list nat) (raw : list (list N)),
+    (forall i, In i (supplied 0 (length ds) skip) ->
+               rest i (prep i (nth i raw [])) = nth i raw [] /\ length (prep i (nth i raw [])) = nth i ds 0) ->
+    restore_row rest ds skip (prepare_row prep ds skip raw) = map (fun i => nth i raw []) (supplied 0 (length ds) skip).
+Proof. exact @restore_prepare. Qed.
 Print Assumptions C11_skip_independent.
+Print Assumptions C11_restore_prepare_with_skips.
 Print Assumptions C11_argmax_shift.
 Print Assumptions C11_split_join.
 
